@@ -20,6 +20,7 @@ import ast
 
 import frame_rules
 from callgraph import CallGraph
+from repo import call_name
 from common import AnalysisError, Finding, norm
 from flow import function_exits
 from props.c17 import S1Client, is_validator_call
@@ -128,6 +129,17 @@ def p2(repo, res):
                     dk = next((k.value for k in ctor.keywords if k.arg == "degrees"), None)
                     if not (isinstance(dk, ast.Name) and dk.id == "degrees"):
                         problems.append("`degrees` is not forwarded to the scipy constructor")
+                if n != "rotate_from_angax":
+                    # "rotate_from_X(v) == rotate(R.from_X(v))": the constructor receives the method's own parameters as they came in
+                    # (a `.lower()` on an Euler sequence turns intrinsic axes into extrinsic ones, a transpose inverts a matrix, ...)
+                    for a in list(ctor.args) + [k.value for k in ctor.keywords]:
+                        if not (isinstance(a, ast.Name) and a.id in params):
+                            problems.append(f"`{norm(a)}` is handed to R.{ctor.func.attr} instead of the caller's own argument")
+                        elif any(isinstance(s_, (ast.Assign, ast.AugAssign)) and any(isinstance(t, ast.Name) and t.id == a.id
+                                 for t in (s_.targets if isinstance(s_, ast.Assign) else [s_.target]))
+                                 and not (isinstance(s_, ast.Assign) and isinstance(s_.value, ast.Call) and (call_name(s_.value) or "").startswith(("check_", "validate_")))
+                                 for s_ in ast.walk(fn)):
+                            problems.append(f"`{a.id}` is re-bound before it reaches R.{ctor.func.attr}")
                 if n == "rotate_from_angax":
                     # degrees handled by hand: the conversion must be conditional on `degrees`
                     conv = [s for s in ast.walk(fn) if isinstance(s, ast.If) and "degrees" in ast.unparse(s.test)]
